@@ -11,31 +11,32 @@ FUNCS = ["SCPI_Parse", "processCommand", "findCommandHeader", "writeDelimiter", 
 
 def mk(tmpl, timeout=600, maxi=3, kbase=0):
     k = len(tmpl)
-    outmax = k * (maxi * 6 + maxi) + k + 4
+    outmax = k * (maxi * 6 + maxi) + k + 4  # longest item text is 6 characters
     return Case("tmpl-" + tmpl + "-i%d-k%d" % (maxi, kbase), H, SRCS, defs=['-DTEMPLATE="%s"' % tmpl, "-DMAXI=%d" % maxi, "-DOUTMAX=%d" % outmax, "-DKBASE=%d" % kbase], unwind=outmax + 3,
                 unwindset={"hx_write.0": 8, "SCPI_RegSet.0": 4, "SCPI_ErrorPushEx.0": 10, "findCommandHeader.0": 14, "harness.3": 130, "app.0": 8,
                            "strlen.0": 8, "strnpbrk.0": 6, "strnpbrk.1": 6, "UInt64ToStrBaseSign.0": 66, "UInt64ToStrBaseSign.1": 22, "UInt32ToStrBaseSign.0": 34, "UInt32ToStrBaseSign.1": 12},
                 timeout=timeout, functions=FUNCS, 
                 bounds=dict(message="concrete template %s (Q = query unit, C = command unit), i.e. the text %s" % (
                     tmpl, ";".join(chr(65 + i) + ("?" if c == "Q" else "") for i, c in enumerate(tmpl)) + "\\r\\n"),
-                    handlers="symbolic: 0..%d items per query" % maxi + " from " + ("{bool, int32, text, mnemonic, block, streamed block}" if kbase == 0 else "{uint64 hex, uint32 binary, int64, double, float, uint64 octal}") + ", error pushed at any point or not, OK or ERR",
+                    handlers="symbolic: 0..%d items per query" % maxi + " from " + {0: "{bool, int32, text, mnemonic, block, streamed block}", 6: "{uint64 hex, uint32 binary, int64, double, float, uint64 octal}", 12: "{empty block, empty binary array, two-element ASCII array, characters, uint8, int16}"}[kbase] + ", error pushed at any point or not, OK or ERR",
                     carried_state="arbitrary first_output / output_count / input_count / arbitrary_remaining / cmd_error before the call"))
 
 
 def cases(tier):
     cs = []
     if tier == "quick":
-        for kb in (0, 6):
+        for kb in (0, 6, 12):
             for t in ("Q", "C"):
                 cs.append(mk(t, 600, 3, kb))
             for t in ("QQ", "QC", "CQ", "CC"):
                 cs.append(mk(t, 900, 2, kb))
-            for t in ("QCQ", "CQQ"):
-                cs.append(mk(t, 900, 1, kb))
+            for k in (3, 4):
+                for t in itertools.product("QC", repeat=k):
+                    cs.append(mk("".join(t), 900, 1, kb))
         return cs
     for k in range(1, 5):
         for t in itertools.product("QC", repeat=k):
-            for kb in (0, 6):
+            for kb in (0, 6, 12):
                 cs.append(mk("".join(t), 6000, 3 if k <= 2 else 2, kb))
     for t in ("QQQQQ", "QCQCQ", "CQQQC", "QQQQQQ", "QCQQCQ"):
         cs.append(mk(t, 6000, 1, 0))
@@ -43,7 +44,7 @@ def cases(tier):
 
 
 META = dict(
-    bounds=dict(units="1..2 all and two 3-unit templates (quick) / 1..4 all and selected 5..6-unit templates (thorough)", items="0..3 per unit for 1 unit, 0..2 for 2 units, 0..1 for 3 units in quick"),
+    bounds=dict(units="every query/command template of 1..4 units (quick: 0..3 items per unit for 1 unit, 0..2 for 2 units, 0..1 for 3-4 units; thorough: 0..3 / 0..2) and selected 5..6-unit templates (thorough)", items="see units"),
     outside=["more than 3 items per unit, other result types (every result function goes through the same delimiter routine)",
              
              "header texts other than the template's single-letter headers (dispatch is C02's subject)"],
